@@ -7,7 +7,7 @@ from the documented behaviour of the interface (docstrings of _IntegerBase.py / 
 """
 from vf.pyvc.contracts import Contract, ClassContract
 from .base import base_registry
-from ._intcommon import add_entropy_model, class_value, LEMMA_TEXT   # noqa  (registers the spec forms)
+from ._intcommon import add_entropy_model, add_lemmas, lemma_units, class_value, LEMMA_TEXT   # noqa  (registers the spec forms)
 
 M = 'Crypto.Math.'
 IN = M + '_IntegerNative.IntegerNative'
@@ -238,15 +238,19 @@ def random_contracts(reg, cls=IN):
         lemmas={'exit': {'sbits': '1 <= %s and %s <= 8' % (SB, SB),
                          'top': 'ival(result) == be(bytes([%s]) + %s)' % (top, rest),
                          'cat': 'be_cat(bytes([%s]), %s)' % (top, rest),
+                         'val': 'ival(result) == %s * pow2(8 * (%s - 1)) + be(%s)' % (top, NB, rest),
+                         'lt': 'be_lt(%s)' % rest,
+                         'radix': 'lemma("integer.radix_lt", %s, be(%s), pow2(8 * (%s - 1)), pow2(%s))' % (top, rest, NB, SB),
+                         'radix_lo': '%s ==> lemma("integer.radix_ge", %s, be(%s), pow2(8 * (%s - 1)), pow2(%s - 1))' % (EXACT, top, rest, NB, SB),
                          'bits': 'pow2_add(%s, 8 * (%s - 1))' % (SB, NB),
-                         'lt': 'be_lt(%s)' % rest}},
+                         'bits_lo': 'pow2_add(%s - 1, 8 * (%s - 1))' % (SB, NB)}},
         modifies=['kwargs', TP + '.g_pos'], result='obj:' + cls,
-        options={'enum_shift': 8, 'pow2_consts': True})))
+        options={'enum_shift': 8, 'pow2_consts': True, 'int_bytes': True})))
     return out
 
 
 def registry(self_class=IN):
-    reg = add_entropy_model(base_registry())
+    reg = add_lemmas(add_entropy_model(base_registry()))
     reg.add(ClassContract(IN, fields={'_value': 'int'}))
     reg.add(ClassContract(IC, fields={'_value': 'int'}))
     interface_contracts(reg, IN, FRAME['native'], self_type=('obj:' + self_class) if self_class != IN else None, per_method=NATIVE_HELP)
